@@ -20,7 +20,11 @@ def run(ctx):
     ctx.cov["rule"] = ("svlv: every 4-state value of width <= 3 plus boundary-biased random values (widths 0..300, "
                        "both Value arms, canonical and non-canonical, X/Z density none/sparse/dense) through the real "
                        "From<&Value> for Vec<SvLogicVecVal>, From<&[SvLogicVecVal]> for Value, VcdValueIter, "
-                       "to_vcd_value, to_fst_bits vs the Lean model and vs a per-bit Annex H table; "
+                       "to_vcd_value, to_fst_bits vs the Lean model and vs a per-bit Annex H table; cosim: the real "
+                       "libveryl_cosim.so (cosim_open/cosim_set/cosim_get) on generated pass-through designs of width 1..300 in 2- and "
+                       "4-state vs model and vs 'the same words with bits >= width cleared'; vcd: generated designs simulated on all 8 "
+                       "interpreter/Cranelift configurations with an in-memory VCD dumper, every dumped value at every timestamp vs "
+                       "Simulator::get_var; "
                        "distinct = distinct (request, reply) pairs")
     ctx.notes.append("cosim_get / cosim_set use a fixed [SvLogicVecVal; 4] buffer (DPI prototype logic [127:0]): ports wider "
                      "than 128 bits are truncated on read (theorem cosim_window_full_false); within 128 bits the window is exact "
@@ -28,16 +32,28 @@ def run(ctx):
     if not harness_build(ctx):
         return
     if ctx.replay:
-        for dom in ("svlv", "vcd"):
+        for dom in ("svlv", "cosim", "vcd"):
             f = replay_lines(ctx, dom)
             if f:
                 line_differential(ctx, dom, ["--replay", f])
         return
     line_differential(ctx, "svlv", ["--seed", ctx.seed, "--n", tier_n(ctx, 6000, 200000)])
+    run_cosim(ctx)
     run_vcd(ctx)
     if not ok:
         if not any(not ni for _, _, ni in ctx.violations):
             proof_broken(ctx, "VerylModel.Props.C36 no longer checks")
+
+
+def run_cosim(ctx):
+    """DPI half on the real cdylib: cosim_open / cosim_set / cosim_get through libloading."""
+    import os
+    if not os.path.exists(f"{HARNESS}/src/dom_cosim.rs"):
+        return
+    n = line_differential(ctx, "cosim", ["--seed", ctx.seed, "--n", tier_n(ctx, 300, 6000)])
+    if ctx.cov.get("distribution", {}).get("cosim.library_missing"):
+        ctx.notes.append("libveryl_cosim.so was not found next to hx: the DPI entry points themselves were not exercised in this run "
+                         "(the conversion functions they call were, by the svlv domain)")
 
 
 def run_vcd(ctx):
